@@ -68,6 +68,9 @@ _REDUCERS = {
     )
 }
 _REDUCERS[np.linalg.norm] = 2  # norm(x, ord, axis)
+for _func in (np.quantile, np.percentile, np.nanquantile, np.nanpercentile):
+    _REDUCERS[_func] = 2  # quantile(a, q, axis)
+del _func
 
 
 def _FeShape(operands) -> tuple:
@@ -408,10 +411,13 @@ class FeArray(np.ndarray):
         "argmin",
         "all",
         "any",
-        "ravel",
     ):
         locals()[_name] = _make_reducer(_name)
     del _name, _make_reducer
+
+    def ravel(self, *args, **kwargs):
+        """``np.ravel()`` wrapper — a flat ``ndarray`` (the (Ne, nPg) axes are merged), in any order."""
+        return np.asarray(self.view(np.ndarray).ravel(*args, **kwargs))
 
     def reshape(self, *args, **kwargs):
         new = super().reshape(*args, **kwargs)
